@@ -12,6 +12,17 @@ import (
 	"verifharness/obs"
 )
 
+// Reseed decorrelates the case streams of different VERIF_SEED values.  gen.New multiplies the seed by
+// the same constant splitmix64 uses as its increment, so the root streams of seeds s and s+1 are the
+// same sequence shifted by one position and every seed would produce (almost) the same set of cases.
+func Reseed(r *gen.Rand) *gen.Rand {
+	z := gen.Seed() + 0x632BE59BD9B4E019
+	z = (z ^ (z >> 30)) * 0xBF58476D1CE4E5B9
+	z = (z ^ (z >> 27)) * 0x94D049BB133111EB
+	z ^= z >> 31
+	return gen.New(r.U64() ^ z)
+}
+
 // M describes a RedisMessage: payload = Str followed by Pad bytes 'x'.
 type M struct {
 	Typ  byte   `json:"t"`
